@@ -37,6 +37,21 @@ INLINE = {
 }
 
 
+def compile_list(toks):
+    """the operations a token list denotes, or None if it is not in the grammar: like the arguments of btcc, a bracketed sub-script may be
+    spread over several tokens, and a token may go on after a closing bracket (C07's join_args)"""
+    from checks.c07 import join_args, bracket_balance
+    toks = [t for t in toks if t != '']
+    if bracket_balance(' '.join(toks)) != 0:
+        return None
+    try:
+        joined = join_args(toks)
+    except asm.AsmError:
+        return None
+    comp = [compile_token(t) for t in joined]
+    return None if any(c is None for c in comp) else comp
+
+
 def compile_token(tok):
     """exec reads its tokens the way the tokens of a script are read (ref.asm, the grammar C07 judges): decimal number of any
     size -> minimal number push; opcode name -> opcode; hex with or without 0x -> push of those bytes in the minimal form;
@@ -73,6 +88,9 @@ def gen_tokens(rng, sv, state_depth):
         else:
             o = rng.choice([x for x in gen.ALL_OPS if x not in gen.SIGOPS and x != OP_CODESEPARATOR])
             toks.append(tok_of_op(rng, o))
+    if rng.random() < 0.08:
+        # bracketed sub-scripts the way a command line delivers them: spread over several tokens, glued to what follows
+        toks[rng.randrange(len(toks) + 1):0] = rng.choice([['[OP_1', 'OP_2]'], ['[OP_1][OP_2]'], ['[OP_1]5'], ['[OP_1', '[OP_2', 'OP_3]]', 'OP_SIZE'], ['[', 'OP_DUP', ']'], ['[0x1234', 'OP_ADD][OP_1]'], ['[]']])
     if sv == TAPSCRIPT:
         toks = [t for t in toks if not (len(compile_token(t) or b'') == 1 and is_op_success(compile_token(t)[0]))] or ['OP_NOP']
     return toks
@@ -239,9 +257,9 @@ def judge(c, evs, part):
             if seen == pos:
                 break
             xtext = ''
-    comp = [compile_token(t) for t in toks]
+    comp = compile_list(toks)
     part.count('exec_len', len(toks))
-    if any(cpl is None for cpl in comp):
+    if comp is None:
         # invalid token: exec must refuse and change nothing
         if x.exc.startswith('UNCAUGHT:'):  # (the harness catches what would terminate the real process)
             part.violation('uncaught-exception-in-exec:' + (exc_kind(x.exc.replace('UNCAUGHT:', '')) or '?'), wit)
@@ -384,8 +402,8 @@ def worker(job):
                 c['toks'] = gen_tokens(rng, c['sv'], 0)
             if 'weight' not in c and not c.get('failing_step') and rng.random() < 0.3:
                 c['toks0'] = rng.choice([['0000000000', 'OP_1ADD'], ['OP_0', 'OP_VERIFY'], ['ffffffff7f', 'OP_NEGATE'], ['0100', 'OP_NOT'], ['OP_1', 'OP_DROP'], ['OP_DEPTH'], ['OP_BOGUS'], gen_tokens(rng, c['sv'], 0)])
-            if 'weight' not in c and not c.get('failing_step') and rng.random() < 0.03:
-                c['toks'].insert(rng.randrange(len(c['toks']) + 1), rng.choice(['OP_BOGUS', 'zz', 'OP_', '12x', '0x123', '-0', '1e3'] + list(INLINE)))
+            if 'weight' not in c and not c.get('failing_step') and rng.random() < 0.03 and not any('[' in t or ']' in t for t in c['toks']):     # (inside a sub-script a word outside the grammar is text to push: not judged)
+                c['toks'].insert(rng.randrange(len(c['toks']) + 1), rng.choice(['OP_BOGUS', 'zz', 'OP_', '12x', '0x123', '-0', '1e3', '[OP_1', 'OP_1]', '[[OP_1]'] + list(INLINE)))
             c['id'] = 'x%d.%d' % (idx, i)
             cmds = ['N ' + c['id'], 'SV %d' % c['sv'], 'FL %d' % c['flags'], 'SC %s' % hexs(c['script'])]
             if c['stack']:
@@ -435,8 +453,8 @@ def repl_worker(job):
                     it.step()
             except (ScriptFail, NumErr):
                 continue
-            comp = [compile_token(t) for t in toks]
-            if any(cpl is None for cpl in comp):
+            comp = compile_list(toks)
+            if comp is None:
                 continue
             ex = Interp(b''.join(comp), list(it.stack), STANDARD, BASE, alt=list(it.alt), vf=list(it.vf))
             ex.nop = it.nop
